@@ -27,6 +27,7 @@ def main(argv):
     p = sub.add_parser('replay')
     p.add_argument('path')
     p.add_argument('--quiet', action='store_true')
+    p.add_argument('--record', action='store_true')
     d = sub.add_parser('digests')
     d.add_argument('--property', required=True)
     d.add_argument('--tier', required=True)
@@ -50,7 +51,7 @@ def main(argv):
             return runner.run_check(args.property, args.tier, seed, nproc=args.nproc,
                                     max_runs=args.max_runs, write_evidence=not args.no_evidence)
         if args.cmd == 'replay':
-            return runner.replay_file(args.path, quiet=args.quiet)
+            return runner.replay_file(args.path, quiet=args.quiet, record=args.record)
         if args.cmd == 'digests':
             return runner.digests_cmd(args.property, args.tier, args.seed, json.loads(args.jobs))
         if args.cmd == 'doctor':
